@@ -133,6 +133,84 @@ def shard_crash_idempotence(prop: str, tier: str, seed: int, name: str) -> dict[
     return c.export()
 
 
+def shard_concurrent(prop: str, tier: str, seed: int, name: str, held: str, P: int) -> dict[str, Any]:
+    """A recovery sweep running in its own thread while a worker handles one message (statement-level interleaving)."""
+    import json as _json
+
+    from vlib import tasks
+    from vlib.engine_d import Schedule
+    from vlib.engine_i import Sched, explore, handle_one
+    from vlib.world import LONG_AGO, World
+
+    c = Campaign(prop, tier, seed, LEVEL)
+    spec = core_corpus()[name]
+
+    def key(row: dict[str, Any]) -> str:
+        try:
+            p_ = _json.loads(row["payload"])
+        except Exception:  # noqa: BLE001
+            p_ = {}
+        return f"{row['type']}:{(p_.get('stage_id') or '').replace('W1-', '')}"
+
+    tasks.reset_ledger()
+    run0 = Run(spec, Schedule())
+    guard = 0
+    while guard < 400:
+        guard += 1
+        rows = [r for r in run0.eligible() if key(r) != held]
+        if not rows or held in [key(r) for r in run0.w.pending()] and key(rows[0]) != held and len([r for r in run0.w.pending() if key(r) == held]) >= 1:
+            break
+        run0.deliver(rows[0])
+    if held not in [key(r) for r in run0.w.pending()]:
+        c.count("concurrent-sweep:scenario-not-reached")
+        return c.export()
+    prep = {"blob": run0.w.snapshot(), "ledger": tasks.ledger_snapshot(), "steps": run0.steps}
+
+    def mk() -> World:
+        tasks.reset_ledger()
+        tasks.LEDGER.extend(dict(e) for e in prep["ledger"])
+        w = World(restore=prep["blob"], share_connection=True)
+        for r in w.pending():
+            due = LONG_AGO if key(r) == held else "2100-01-01T00:00:00+00:00"
+            w._harness_sql("UPDATE queue_messages SET deliver_at = ?, locked_until = NULL WHERE id = ?", (due, r["id"]))
+        w.set_ctx(prep["steps"] + 1, "concurrent")
+        return w
+
+    def sweeper(s: Sched, i: int) -> None:
+        s.labels[i] = "Recovery"
+        s.w.processor.run_recovery()
+
+    def progs(w: World):
+        return [handle_one(), sweeper]
+
+    def j(w: World, s: Sched, pre: dict[int, int]) -> None:
+        run = Run(spec, Schedule(), world=w, max_steps=2000)
+        run.steps = 1000
+        run.drain()
+        before = set(c.buckets)
+        judge(c, spec, run, {"style": "concurrent-sweep", "held": held, "preemptions": {str(k): v for k, v in sorted(pre.items())}, "d": []},
+              ["concurrent-sweep", f"held:{held.split(':')[0]}"])
+        # where did the sweep read the stage? between the StartStage handler's claim commit and its plan commit the stage is
+        # RUNNING with untouched tasks - the state recovery mistakes for 'start the first task' (finding F1's window, live)
+        worker_commits = 0
+        window = "concurrent-sweep"
+        for _idx, tid, label, _r in s.trace:
+            if tid == 0 and label == "commit":
+                worker_commits += 1
+            if tid == 1 and label.startswith("sql:SELECT * FROM stage_exec"):
+                if held.startswith("StartStage") and worker_commits == 2:
+                    window = "sweep-in-claim-plan-window"
+                break
+        for b in set(c.buckets) - before:
+            c.buckets[f"{b}|{window}"] = c.buckets.pop(b)
+        if s.errors:
+            c.violation("concurrent-sweep-raised", {"spec": spec, "held": held, "preemptions": {str(k): v for k, v in pre.items()}}, f"{s.errors[:2]}")
+
+    n = explore(mk, progs, j, max_preemptions=P)
+    c.extra[f"schedules:concurrent-sweep:{name}:{held}"] = n
+    return c.export()
+
+
 def _dispatch(fn, a):  # noqa: ANN001
     return fn(*a)
 
@@ -148,17 +226,21 @@ def run(c: Campaign, jobs: int) -> None:
     args += [(shard_random, (c.prop, c.tier, c.seed * 1000 + k, max(1, n // shards))) for k in range(shards)]
     crash_names = ["diamond", "multitask", "cof", "poll", "transient", "loop2", "orsplit", "before", "mutex", "firstof"]
     args += [(shard_crash_idempotence, (c.prop, c.tier, c.seed, n_)) for n_ in (crash_names if not quick else crash_names[:8])]
+    for name, held in (("diamond", "StartStage:d"), ("multitask", "StartTask:a"), ("multitask", "RunTask:a"), ("diamond", "CompleteStage:b"),
+                       ("multitask", "CompleteTask:a"), ("orsplit", "CompleteStage:x"), ("before", "StartStage:p")):
+        args.append((shard_concurrent, (c.prop, c.tier, c.seed, name, held, 2 if quick else 3)))
     run_shards(c, _dispatch, args, jobs)
+    c.exhaustive_parts.append("a sweep thread concurrent with one handler (7 handler kinds): all schedules with <= 2 pre-emptions (thorough 3)")
     c.exhaustive_parts.append(f"one and two sweeps before every delivery position of the FIFO run (and one sweep per position under two hold-back schedules) "
                               f"of {len(pos_names)} corpus specs; sweep before every step")
     c.rule = ("case = (spec, schedule, sweep positions) or (spec, crash state, sweep once vs twice). Non-trivial = a sweep found unfinished work and pushed "
               ">= 1 message (stages_requeued > 0). Distinct = hash of the case.")
     c.assumptions += [
         "healthy runs are judged against the sweep-free FIFO run (sweeps add messages, so 'the same schedule without sweeps' is not well defined)",
-        "a sweep concurrent with a handler (statement-level interleaving) belongs to the interleaving engine and is not part of this revision's C10",
+        "a sweep concurrent with a handler is explored under the interleaving engine for 7 fixed (spec, in-flight message) scenarios within a pre-emption bound",
         "single worker thread; SQLite only",
     ]
-    for cls in ("sweep-requeued", "feat:or-split", "feat:jump", "feat:before-child", "crash-idempotence", "every-step", "style:hold"):
+    for cls in ("sweep-requeued", "feat:or-split", "feat:jump", "feat:before-child", "crash-idempotence", "every-step", "style:hold", "concurrent-sweep"):
         if c.classes.get(cls, 0) == 0:
             c.harness_error(f"generator starvation: class {cls} never produced")
 
